@@ -205,17 +205,20 @@ TypeOK ==
     /\ eof \in BOOLEAN /\ done \in BOOLEAN /\ err \in {"none", "decompress", "decode"}
     /\ Len(pend) <= 3
 
-(* the axioms the stage models rest upon, checked on every generated input *)
+(* the axioms the stage models rest upon, checked on every generated input (they only
+   speak about the environment variables, so the initial states suffice) *)
 SerializerAxiom ==
-    \A j \in 1..Len(objs) :
+    pos = 0 => \A j \in 1..Len(objs) :
         /\ TextOf(objs[j]) # <<>>
         /\ \A q \in 1..Len(TextOf(objs[j])) : TextOf(objs[j])[q] # NL
         /\ Parse(TextOf(objs[j])) = objs[j]
-CodecAxiom == DecChars(plain) = Text /\ DecRest(plain) = <<>> /\ Len(plain) = ByteLen(Text)
-FramingAxiom == LF!CompleteLines(Text) = [j \in 1..Len(objs) |-> TextOf(objs[j])]
-                /\ LF!Remainder(Text) = <<>>
-WireAxiom == comp = 1 => Cap(Len(file)) = Len(plain) /\ FrameComplete(Len(file))
-                         /\ ~FrameComplete(Len(file) - 1)
+CodecAxiom == pos = 0 => DecChars(plain) = Text /\ DecRest(plain) = <<>>
+                         /\ Len(plain) = ByteLen(Text)
+FramingAxiom == pos = 0 => /\ LF!CompleteLines(Text) = [j \in 1..Len(objs) |-> TextOf(objs[j])]
+                           /\ LF!Remainder(Text) = <<>>
+WireAxiom == pos = 0 /\ comp = 1 => /\ Cap(Len(file)) = Len(plain)
+                                    /\ FrameComplete(Len(file))
+                                    /\ ~FrameComplete(Len(file) - 1)
 
 (* Confluence, stage by stage: the carry-over state is a function of what was delivered *)
 ConfluenceRead == comp = 0 => rel = pos
